@@ -52,8 +52,8 @@ def pick_shapes(r, sig, variant, maxpos, maxkw, n_multi):
   small = [s for s in shapes if len(s[1]) <= 1]
   big = [s for s in shapes if len(s[1]) > 1]
   # keywords naming positional-only parameters are the delicate corner: always keep some
-  e = g.effective(sig, variant)
-  hot = [s for s in big if any(k in e.P for k in s[1])]
+  pos_only = g.posonly_names(sig, variant)
+  hot = [s for s in big if any(k in pos_only for k in s[1])]
   keep = r.sample(big, min(n_multi, len(big))) + r.sample(hot, min(max(2, n_multi // 4), len(hot)))
   seen = set()
   out = []
@@ -61,6 +61,10 @@ def pick_shapes(r, sig, variant, maxpos, maxkw, n_multi):
     if s not in seen:
       seen.add(s); out.append(s)
   return out
+
+
+# def __new__/__init__(first, d, e=.., *, g=..): always part of the constructor cases
+CTOR_SIG = g.Sig((), ("d", "e"), ("g",), ("e", "g"), False, False)
 
 
 def build_items(r, thorough):
@@ -74,23 +78,32 @@ def build_items(r, thorough):
     for v in g.VARIANTS[1:]:
       for sig in r.sample(small, 60):
         req.append((sig, v, pick_shapes(r, sig, v, 3, 2, None)))
+    for v in g.CTOR_VARIANTS:                        # constructors: inherited / __new__ / both
+      for sig in [CTOR_SIG] + r.sample(small, 24):
+        req.append((sig, v, pick_shapes(r, sig, v, 3, 2, None)))
     big = g.enum_sigs(3)
+    allv = g.VARIANTS + g.CTOR_VARIANTS
     for n in range(7000):                            # <=3 of each kind x <=5 positional x <=3 keywords, sampled
       sig = r.choice(big)
-      v = g.VARIANTS[n % len(g.VARIANTS)] if n % 2 else "func"
+      v = allv[n % len(allv)] if n % 2 else "func"
       (req if n < 300 else opt).append((sig, v, pick_shapes(r, sig, v, 5, 3, 50)))
   else:
     hot = [s for s in small if s.P and s.kw]
-    for sig in r.sample(hot, 30) + r.sample(small, 90):
+    for sig in r.sample(hot, 25) + r.sample(small, 70):
       req.append((sig, "func", pick_shapes(r, sig, "func", 3, 2, 6)))
     for v in g.VARIANTS[1:]:
-      for sig in r.sample(small, 16):
+      for sig in r.sample(small, 12):
         req.append((sig, v, pick_shapes(r, sig, v, 3, 2, 6)))
-    for sig in r.sample(g.enum_sigs(3), 8):          # a few larger ones
+    for v in g.CTOR_VARIANTS:                        # constructors: inherited / __new__ / both
+      for sig in [CTOR_SIG] + r.sample(small, 2):
+        req.append((sig, v, pick_shapes(r, sig, v, 3, 2, 4)))
+    for sig in r.sample(g.enum_sigs(3), 6):          # a few larger ones
       req.append((sig, "func", pick_shapes(r, sig, "func", 5, 3, 16)))
+    allv = g.VARIANTS + g.CTOR_VARIANTS
     for n in range(400):
       sig = r.choice(small)
-      opt.append((sig, g.VARIANTS[n % len(g.VARIANTS)], pick_shapes(r, sig, g.VARIANTS[n % len(g.VARIANTS)], 3, 2, 6)))
+      v = allv[n % len(allv)]
+      opt.append((sig, v, pick_shapes(r, sig, v, 3, 2, 6)))
   return req, opt
 
 
@@ -115,20 +128,26 @@ def model_exe():
 
 
 def run_model(exe, groups):
-  lines = [g.model_line(s, v, sh) for grp in groups for (s, v, shs) in grp for sh in shs]
+  """Per case (wf, bind_py, bind_py_fixed, bind_c); a constructor call binds up to two signatures in turn."""
+  cases = [(v, g.model_lines(s, v, sh)) for grp in groups for (s, v, shs) in grp for sh in shs]
+  lines = [l for _, ls in cases for l in ls]
   pr = subprocess.run([exe], input="\n".join(lines) + "\n", capture_output=True, text=True)
   if pr.returncode != 0:
     raise common.BuildError("extracted model failed: " + pr.stderr[-1500:])
-  out = pr.stdout.split("\n")
-  return [tuple(o.split("\t")) for o in out[:len(lines)]]
+  out = [tuple(o.split("\t")) for o in pr.stdout.split("\n")[:len(lines)]]
+  res, i = [], 0
+  for v, ls in cases:
+    rows = out[i:i + len(ls)]; i += len(ls)
+    res.append(("1" if all(r[0] == "1" for r in rows) else "0",) +
+               tuple(g.combine([r[c] for r in rows], v) for c in (1, 2, 3)))
+  return res
 
 
 # ------------------------------------------------------------------------------------------------
 # oracle helpers
 
 def in_known_class(sig, variant, shape):
-  e = g.effective(sig, variant)
-  return e.kw and any(k in e.P for k in shape[1])
+  return any(e.kw and any(k in e.P for k in shape[1]) for e, _ in g.parts(sig, variant))
 
 
 def shows_known_defect(sig, variant, shape, py):
@@ -136,15 +155,14 @@ def shows_known_defect(sig, variant, shape, py):
   parameter holds the keyword argument of the same name (which CPython would put into **kwargs)."""
   if not in_known_class(sig, variant, shape):
     return False
-  e = g.effective(sig, variant)
   if py == "O:!self-rebound":
-    return "self" in e.P and "self" in shape[1]
+    return "self" in g.posonly_names(sig, variant) and "self" in shape[1]
   if not py.startswith("O:"):
     return False
   vals = py[2:].split(",")
-  names = g.all_names(e)
+  names = [(n, e) for e, _ in g.parts(sig, variant) for n in g.all_names(e)]
   return len(vals) == len(names) and any(
-      n in e.P and n in shape[1] and v == "K%d" % g.ID[n] for n, v in zip(names, vals))
+      e.kw and n in e.P and n in shape[1] and v == "K%d" % g.ID[n] for (n, e), v in zip(names, vals))
 
 
 def kind(s):
@@ -156,7 +174,8 @@ def kind(s):
 
 
 def describe(sig, variant, shape):
-  return "def(%s) call %s" % (g.params_text(sig, variant), g.call_text(sig, variant, 0, shape))
+  tag = " [%s]" % variant if variant.startswith("ctor:") else ""
+  return "def(%s)%s call %s" % (g.params_text(sig, variant), tag, g.call_text(sig, variant, 0, shape))
 
 
 def observe_one(sig, variant, shape):
@@ -186,7 +205,7 @@ def shrink(sig, variant, shape, keep_class, budget_s=20.0):
     changed = False
     s, v, (n, ks) = cur
     cands = []
-    if v != "func":
+    if v != "func" and not v.startswith("ctor:"):
       cands.append((s, "func", (n, tuple(k for k in ks if k not in ("self", "cls")))))
     for fld in ("P", "Q", "K"):
       names = getattr(s, fld)
@@ -237,10 +256,16 @@ def run(res):
               "positional-or-keyword, keyword-only), every legal placement of defaults, with/without *args and **kwargs; "
               "calls: <=3 (larger: <=5) positional arguments and <=2 (larger: <=3) keywords drawn from the parameter names "
               "(incl. self/cls and the *args/**kwargs names) and one foreign name.  quick: a seeded stratified sample "
-              "(120 function defs, 30 of them with positional-only parameters and **kwargs; 16 defs for each of lambda / "
-              "method / classmethod / staticmethod / __init__; 8 larger defs; every shape with <=1 keyword plus a sample "
+              "(95 function defs, 25 of them with positional-only parameters and **kwargs; 12 defs for each of lambda / "
+              "method / classmethod / staticmethod / __init__; 6 larger defs; every shape with <=1 keyword plus a sample "
               "of the others), more as long as the time budget lasts.  thorough: all 756 small defs x all shapes for plain "
               "functions, 60 defs x all shapes for each other variant, 300 larger defs x ~110 shapes, more as time allows.  "
+              "Constructors C(...): 18 class layouts over a three-level user hierarchy (__init__ inherited from 1 or 2 "
+              "levels up; __new__ on the class or inherited from 1 or 2 levels up; both, with the same signature, with one "
+              "of them generic (*va, **kw), or with different signatures; no constructor at all), 3 defs each in quick and 25 "
+              "in thorough; the signatures bound are the user-defined __new__ then __init__ found on the MRO (CPython "
+              "passes the same arguments to both; object's tolerate excess arguments iff the other is overridden), with "
+              "the real CPython call as ground truth.  "
               "Every argument and default is an instance of its own marker class, so the parameter->argument mapping is "
               "observable as the revealed type of the returned parameter tuple, one call per line.  A case is non-trivial if "
               "the def has a parameter and the call an argument; distinct by (variant, def, call).")
@@ -304,13 +329,12 @@ def run(res):
       n_stray += len(stray)
       first_bad.setdefault("stray", stray[0])
     for j, (sig, variant, shapes) in enumerate(grp):
-      e = g.effective(sig, variant)
       for k, sh in enumerate(shapes):
         wf, mpy, mpyf, mc = model[i]; i += 1
         n_seen += 1
         real, bound = cres[j][k]
         py = pres[j][k]
-        nparams = len(g.all_names(e))
+        nparams = len(g.names_v(sig, variant))
         nontrivial = nparams > 0 and (sh[0] + len(sh[1])) > 0
         res.count((variant, sig, sh) if nontrivial else None)
         hist["variant:" + variant] += 1
@@ -390,7 +414,7 @@ def run(res):
                  "%d explored cases on which bind_py and bind_py_fixed differ" % n_sep)
 
   # the oracle's verdicts
-  size = lambda c: (len(g.all_names(g.effective(c[0], c[1]))) + c[2][0] + len(c[2][1]), c[1] != "func")
+  size = lambda c: (len(g.names_v(c[0], c[1])) + c[2][0] + len(c[2][1]), c[1] != "func")
   if oracle_known:
     sig, variant, sh, real, py = min(oracle_known, key=size)
     res.violation(KNOWN_FP,
@@ -435,6 +459,7 @@ def replay(res, path):
   real, py = observe_one(sig, variant, sh)
   print("def   :", g.params_text(sig, variant), " [%s]" % variant)
   print("call  :", g.call_text(sig, variant, 0, sh))
+  print(g.module_text([(sig, variant, [sh])])[1][len(g.HEADER):], end="")
   print("cpython:", real)
   print("pytype :", py)
   return 0 if g.outcome_only(real) == g.outcome_only(py) else 1
